@@ -38,6 +38,7 @@ type resRT struct {
 }
 
 var resRuntime = map[*resSpec]*resRT{}
+var resByClass = map[string]*resSpec{} // every resolver answer of the run by its class label (replay)
 var resPublic *resSpec
 
 var errNX = errors.New("c16 table resolver: no such host")
@@ -124,7 +125,36 @@ func onoff(b bool) string {
 	return "off"
 }
 
-func (p polSpec) dsl(target string, seq int) string {
+func (p polSpec) dsl(target string, seq int) string { return p.dslMax(target, seq, 3) }
+
+// dslRules writes one rule list in the form the policy asks for:
+//
+//	""            one quoted directive per entry
+//	"multi"       one directive with all entries as quoted values
+//	"env-default" one directive per entry, the entry given as the default of an unset {$VAR:default} placeholder
+func dslRules(b *strings.Builder, directive string, entries []string, form string) {
+	switch form {
+	case "multi":
+		if len(entries) == 0 {
+			return
+		}
+		fmt.Fprintf(b, "    %s", directive)
+		for _, e := range entries {
+			fmt.Fprintf(b, " %q", e)
+		}
+		b.WriteString("\n")
+	case "env-default":
+		for i, e := range entries {
+			fmt.Fprintf(b, "    %s %q\n", directive, fmt.Sprintf("{$VERIF_C16_UNSET_%s_%d:%s}", strings.ToUpper(directive), i, e))
+		}
+	default:
+		for _, e := range entries {
+			fmt.Fprintf(b, "    %s %q\n", directive, e)
+		}
+	}
+}
+
+func (p polSpec) dslMax(target string, seq, retryMax int) string {
 	var b strings.Builder
 	// placeholder addresses of the in-memory vnet; distinct per boot because a server's listener is released asynchronously
 	base := 20000 + (seq%10000)*3
@@ -133,13 +163,9 @@ func (p polSpec) dsl(target string, seq int) string {
 	fmt.Fprintf(&b, "admin_api { listen \"127.0.0.1:%d\" }\n", base+2)
 	b.WriteString("defaults {\n  egress {\n")
 	fmt.Fprintf(&b, "    https_only %s\n    redirects %s\n    dns_rebind_protection %s\n", onoff(p.HTTPSOnly), onoff(p.Redirects), onoff(p.Rebind))
-	for _, a := range p.Allow {
-		fmt.Fprintf(&b, "    allow %q\n", a)
-	}
-	for _, d := range p.Deny {
-		fmt.Fprintf(&b, "    deny %q\n", d)
-	}
-	b.WriteString("  }\n  deliver {\n    retry exponential max 3 base 1s cap 4s jitter 0.1\n    timeout 5s\n    concurrency 1\n  }\n}\n")
+	dslRules(&b, "allow", p.Allow, p.Form)
+	dslRules(&b, "deny", p.Deny, p.Form)
+	fmt.Fprintf(&b, "  }\n  deliver {\n    retry exponential max %d base 1s cap 4s jitter 0.1\n    timeout 5s\n    concurrency 1\n  }\n}\n", retryMax)
 	fmt.Fprintf(&b, "/f { deliver %q {} }\n", target)
 	return b.String()
 }
@@ -179,11 +205,17 @@ var bootSeq int
 // realPolicy compiles the Hookaidofile text with the production parser and
 // compiler and maps it exactly as run() does (mapEgressRules, buildDispatchRoutes).
 func realPolicy(p polSpec, target string) (dispatcher.EgressPolicy, []dispatcher.RouteConfig, error) {
+	return realPolicyMax(p, target, 3)
+}
+
+func realPolicyMax(p polSpec, target string, retryMax int) (dispatcher.EgressPolicy, []dispatcher.RouteConfig, error) {
 	bootSeq++
-	a, err := app.VerifBoot(app.VerifBootOptions{Dir: fmt.Sprintf("%s/boot%d", runner.Scratch(), bootSeq), ConfigText: p.dsl(target, bootSeq), Store: queue.NewMemoryStore()})
+	dir := fmt.Sprintf("%s/boot%d", runner.Scratch(), bootSeq)
+	a, err := app.VerifBoot(app.VerifBootOptions{Dir: dir, ConfigText: p.dslMax(target, bootSeq, retryMax), Store: queue.NewMemoryStore()})
 	if err != nil {
 		return dispatcher.EgressPolicy{}, nil, err
 	}
+	defer os.RemoveAll(dir)
 	defer a.Shutdown()
 	pd := a.VerifDispatcher(&http.Client{})
 	hd, ok := pd.Deliverer.(*dispatcher.HTTPDeliverer)
@@ -245,15 +277,7 @@ func (rc replayCase) tcase() (*tcase, error) {
 	}
 	sort.Strings(names)
 	for _, n := range names {
-		var rs *resSpec
-		if rc.Table[n] == resStart.class {
-			rs = &resStart
-		}
-		for i := range resThorough {
-			if resThorough[i].class == rc.Table[n] {
-				rs = &resThorough[i]
-			}
-		}
+		rs := resByClass[rc.Table[n]]
 		if rs == nil {
 			return nil, fmt.Errorf("unknown resolver class %q", rc.Table[n])
 		}
@@ -840,7 +864,9 @@ func initResolverAnswers(r *runner.Run) {
 	for i := range resThorough {
 		all = append(all, &resThorough[i])
 	}
+	all = append(all, listResolverAnswers()...)
 	for _, rs := range all {
+		resByClass[rs.class] = rs
 		rt := &resRT{}
 		for _, s := range rs.answer {
 			zone := ""
